@@ -233,7 +233,7 @@ PROOFS = [
     {'name': 'match_attribute_int', 'enforce': 'match_attribute_int', 'replace': [SKW, MS, ADV, 'AttributeMatcher_int_match'], 'props': ['C17', 'C03']},
     {'name': 'match_attribute_bool', 'enforce': 'match_attribute_bool', 'replace': [SKW, MS, ADV], 'props': ['C17', 'C03']},
     {'name': 'match_attribute_date', 'enforce': 'match_attribute_date', 'replace': [SKW, MS, ADV, 'AttributeMatcher_date_match'], 'props': ['C17', 'C03']},
-    {'name': 'Cookie_fromRaw', 'enforce': 'Pistache_Http_Cookie_fromRaw', 'loops': 'contracts', 'props': ['C17', 'C03'], 'cost': 30, 'defs': ['-DVS_LIGHT'], 'object_bits': 11,
+    {'name': 'Cookie_fromRaw', 'quick_props': ['C17'], 'enforce': 'Pistache_Http_Cookie_fromRaw', 'loops': 'contracts', 'props': ['C17', 'C03'], 'cost': 30, 'defs': ['-DVS_LIGHT'], 'object_bits': 11,
      'replace': MAS + [ADV, MUC, SKW, 'Pistache_Http_matchValue'],
      'harness': 'void h_Cookie_fromRaw(void) { char *a0; size_t a1; Pistache_Http_Cookie_fromRaw(a0, a1); }\n'},
     {'name': 'CookieJar_addFromRaw', 'enforce': 'Pistache_Http_CookieJar_addFromRaw', 'loops': 'contracts', 'props': ['C17', 'C03'], 'cost': 10, 'defs': ['-DVS_LIGHT'],
